@@ -2,6 +2,7 @@
 package main
 
 import (
+	"context"
 	"encoding/json"
 	"fmt"
 	"io"
@@ -10,6 +11,7 @@ import (
 	"strings"
 	"time"
 
+	"github.com/welllog/golib/ctxz"
 	"github.com/welllog/golib/goz"
 	"github.com/welllog/golib/mapz"
 	"github.com/welllog/golib/mathz"
@@ -194,6 +196,90 @@ func run(c *core.Case, st *core.CaseStats, seed int64) {
 		if g := mathz.Sum(xs...); g != o.Sum {
 			rep("Sum", "value", xs, o.Sum, g)
 		}
+	case "ctx":
+		// extra X06: a chain of contexts with ctxz.WithoutCancel layers (CtxTree.tla)
+		kinds := core.RawStrs(c.S)
+		var order []int
+		json.Unmarshal(c.A[0], &order)
+		var want []struct {
+			Done     bool   `json:"done"`
+			Err      string `json:"err"`
+			Deadline bool   `json:"deadline"`
+			Vals     []int  `json:"vals"`
+		}
+		json.Unmarshal(c.Out, &want)
+		in := map[string]interface{}{"chain": kinds, "cancelled_in_order": order}
+		st.Nontrivial++
+		guard("WithoutCancel", in, func() {
+			type k1 struct{}
+			type k2 struct{}
+			type k3 struct{}
+			ctxs := make([]context.Context, len(kinds)+1)
+			cancels := make([]context.CancelFunc, len(kinds)+1)
+			ctxs[0] = context.Background()
+			for i, k := range kinds {
+				p := ctxs[i]
+				switch k {
+				case "c":
+					ctxs[i+1], cancels[i+1] = context.WithCancel(p)
+				case "df":
+					ctxs[i+1], cancels[i+1] = context.WithDeadline(p, time.Now().Add(24*time.Hour))
+				case "dp":
+					ctxs[i+1], cancels[i+1] = context.WithDeadline(p, time.Now().Add(-time.Hour))
+				case "v1":
+					ctxs[i+1] = context.WithValue(p, k1{}, 1)
+				case "v1b":
+					ctxs[i+1] = context.WithValue(p, k1{}, 2)
+				case "v2":
+					ctxs[i+1] = context.WithValue(p, k2{}, 3)
+				case "n":
+					ctxs[i+1] = ctxz.WithoutCancel(p)
+				}
+			}
+			defer func() {
+				for _, cf := range cancels {
+					if cf != nil {
+						cf()
+					}
+				}
+			}()
+			for _, i := range order {
+				cancels[i]()
+			}
+			val := func(cx context.Context, key any) int {
+				if v, ok := cx.Value(key).(int); ok {
+					return v
+				}
+				return 0
+			}
+			for j := 1; j <= len(kinds); j++ {
+				cx := ctxs[j]
+				done := false
+				select {
+				case <-cx.Done():
+					done = true
+				default:
+				}
+				errS := "nil"
+				switch cx.Err() {
+				case nil:
+				case context.Canceled:
+					errS = "canceled"
+				case context.DeadlineExceeded:
+					errS = "deadline"
+				default:
+					errS = cx.Err().Error()
+				}
+				_, hasDl := cx.Deadline()
+				vals := []int{val(cx, k1{}), val(cx, k2{}), val(cx, k3{})}
+				w := want[j-1]
+				if done != w.Done || errS != w.Err || hasDl != w.Deadline || !eqInts(vals, w.Vals) {
+					rep("WithoutCancel", "value", in, map[string]interface{}{"layer": j, "obs": w},
+						map[string]interface{}{"done": done, "err": errS, "deadline": hasDl, "vals": vals})
+					return
+				}
+			}
+		})
 	case "swap":
 		xs := core.RawInts(c.S)
 		want := core.RawInts(c.Out)
